@@ -335,7 +335,12 @@ impl CommonArgs {
 
         // The pool might be already initialized, suppress the error intentionally.
         if self.available_threads.get() <= 1 {
-            let _ = ThreadPoolBuilder::new().use_current_thread().build_global();
+            // `use_current_thread` only adds the current thread to the pool. Without an explicit
+            // size, rayon would still start one worker per CPU.
+            let _ = ThreadPoolBuilder::new()
+                .num_threads(1)
+                .use_current_thread()
+                .build_global();
         } else {
             let _ = ThreadPoolBuilder::new()
                 .num_threads(self.available_threads.get())
